@@ -14,6 +14,7 @@ import (
 
 	"verif/lib/ev"
 	"verif/lib/mc"
+	"verif/lib/retain"
 	"verif/lib/refgeom"
 )
 
@@ -221,6 +222,8 @@ func compare(in, got mvt.Layers) (diff string, collection bool) {
 	return "", collection
 }
 
+var kept retain.Keeper
+
 func roundTrip(c *mc.Ctx, layers mvt.Layers, desc string) {
 	data, err := mvt.Marshal(layers)
 	if err != nil {
@@ -235,6 +238,10 @@ func roundTrip(c *mc.Ctx, layers mvt.Layers, desc string) {
 	}
 	if d2, err := mvt.Marshal(layers); err != nil || !bytes.Equal(data, d2) {
 		c.Failf("nondeterministic", "marshalling the same layers twice differs | %s", desc)
+	}
+	// what earlier calls returned must still be what they returned (a result must not alias a reused buffer)
+	if d := kept.Bytes(c.Worker, "tile from mvt.Marshal", data, desc); d != "" {
+		c.Failf("result-overwritten", "%s | now marshalling %s", d, desc)
 	}
 	got, err := mvt.Unmarshal(data)
 	if err != nil {
@@ -252,6 +259,9 @@ func roundTrip(c *mc.Ctx, layers mvt.Layers, desc string) {
 	if err != nil {
 		c.Failf("gzip", "MarshalGzipped: %v | %s", err, desc)
 		return
+	}
+	if d := kept.Bytes(c.Worker, "tile from mvt.MarshalGzipped", gz, desc); d != "" {
+		c.Failf("result-overwritten", "%s | now marshalling %s", d, desc)
 	}
 	g2, err := mvt.UnmarshalGzipped(gz)
 	if err != nil {
